@@ -44,7 +44,11 @@ def run_script(D, cn, sc, variant, islinear=0):
     # calls with the same stop criteria are given the SAME dictionary object, and the same save-time list object when equal,
     # as a user script does (stop = {'maxit': N} defined once): arguments written to by one call then reach the next one
     stop_pool, tsave_pool = {}, {}
+    ncalls = 0
     for c in sc["calls"]:
+        if c["cont"] and not lastres:
+            break               # the previous call raised / returned nothing (judged on its own record): the script ends there
+        ncalls += 1
         f = S.f0 if not c["cont"] else lastres[-1]
         mons = mon_dict(c["freqs"], variant) if c["freqs"] else None
         skey = (c["tot"], c["maxit"])
@@ -53,19 +57,20 @@ def run_script(D, cn, sc, variant, islinear=0):
         tkey = tuple(c["tsave"])
         if tkey not in tsave_pool:
             tsave_pool[tkey] = [t / U for t in c["tsave"]]
-        raw, res = S.call(c["op"], f, 1.0, tsave_pool[tkey], stop_pool[skey], monitors=mons,
+        raw, res = S.call(c["op"], f, float(c.get("cfl", 1)), tsave_pool[tkey], stop_pool[skey], monitors=mons,
                           intent={"stop": stop_of(c, U), "tsave": [t / U for t in c["tsave"]]})
         raws.append(raw)
         froms.append("last" if c["cont"] else "f0")
         idx_of_call.append(len(raws))
         lastres = res
-    calls = sc["calls"]
+    calls = sc["calls"][:ncalls]
     trace = D.trace_of(raws[:len(calls)], froms, sc["kind"], sc["prof"], S.f0.time, 0)
     # relations among the script's own calls
     for i in range(len(calls)):
         for j in range(i + 1, len(calls)):
             a, b = calls[i], calls[j]
-            if a["op"] == b["op"] == "solve" and not a["cont"] and not b["cont"] and eff_stop(a) == eff_stop(b):
+            if a["op"] == b["op"] == "solve" and not a["cont"] and not b["cont"] and eff_stop(a) == eff_stop(b) \
+                    and a.get("cfl", 1) == b.get("cfl", 1):
                 if a["tsave"] == b["tsave"]:
                     rels.append({"type": "same", "a": i + 1, "b": j + 1, "c": 0})
                 else:                                       # same effective stop, different save times / monitors
@@ -73,7 +78,7 @@ def run_script(D, cn, sc, variant, islinear=0):
     # twin 1: the first call repeated on a fresh object
     c0 = calls[0]
     S2 = D.Session(cn, ncell=3, profile=sc["prof"], t0=sc["t0"] / U, islinear=islinear)
-    raw, _ = S2.call("solve", S2.f0, 1.0, [t / U for t in c0["tsave"]], stop_of(c0, U),
+    raw, _ = S2.call("solve", S2.f0, float(c0.get("cfl", 1)), [t / U for t in c0["tsave"]], stop_of(c0, U),
                      monitors=mon_dict(c0["freqs"], variant) if c0["freqs"] else None)
     raws.append(raw)
     rels.append({"type": "same", "a": 1, "b": len(raws), "c": 0})
@@ -81,16 +86,17 @@ def run_script(D, cn, sc, variant, islinear=0):
     if c0["tsave"] or c0["freqs"]:
         S3 = D.Session(cn, ncell=3, profile=sc["prof"], t0=sc["t0"] / U, islinear=islinear)
         et, em = eff_stop(c0)
-        raw, _ = S3.call("solve", S3.f0, 1.0, [], stop_of({"tot": et, "maxit": em}, U))
+        raw, _ = S3.call("solve", S3.f0, float(c0.get("cfl", 1)), [], stop_of({"tot": et, "maxit": em}, U))
         raws.append(raw)
         rels.append({"type": "transparent", "a": len(raws), "b": 1, "c": 0})
     # twin 3: whole run for solve N ; restart M  (restart from the final state only)
     for j in range(1, len(calls)):
         if calls[j]["op"] == "restart" and calls[j]["cont"] and not calls[j - 1]["tsave"] \
-                and calls[j - 1]["op"] == "solve" and raws[j - 1]["nit"] > 0 and len(raws[j - 1]["res"]) == 1:
+                and calls[j - 1]["op"] == "solve" and raws[j - 1]["nit"] > 0 and len(raws[j - 1]["res"]) == 1 \
+                and calls[j].get("cfl", 1) == calls[j - 1].get("cfl", 1):
             n_whole = raws[j - 1]["nit"] + raws[j]["nit"]
             S4 = D.Session(cn, ncell=3, profile=sc["prof"], t0=sc["t0"] / U, islinear=islinear)
-            raw, _ = S4.call("solve", S4.f0, 1.0, [], {"maxit": n_whole})
+            raw, _ = S4.call("solve", S4.f0, float(calls[j].get("cfl", 1)), [], {"maxit": n_whole})
             raws.append(raw)
             rels.append({"type": "split", "a": len(raws), "b": j, "c": j + 1})
     return raws, rels, trace
@@ -138,7 +144,12 @@ def run(tier):
         if tier == "quick" and len(classes) > 2:
             classes = rnd.sample(classes, 2)
         for cn in classes:
-            for islin in ((0, 1) if (D.KIND_OF[cn] != "onestep" and tier == "thorough") else (0,)):
+            varies_cfl = any(c.get("cfl", 1) != 1 for c in sc["calls"])
+            # a model that declares itself linear invites caching on the solver object (the Jacobian of the implicit classes is):
+            # always exercised where the CFL number changes between calls, and for the implicit classes at the thorough tier
+            for islin in ((0, 1) if (varies_cfl or (D.KIND_OF[cn] != "onestep" and tier == "thorough")) else (0,)):
+                if islin == 1 and sc["prof"] == "var":
+                    continue        # a linear model has a state- and time-independent step: only the constant profiles are consistent
                 raws, rels, trace = run_script(D, cn, sc, variant=k, islinear=islin)
                 rid += 1
                 calls = D.project(raws, rid)
